@@ -276,7 +276,7 @@ theorem childLoop_root {x0 : Option TT.Entry} (ctx : Ctx) (child : NodeArgs → 
 
 
 theorem tail_root {x0 : Option TT.Entry} (ctx : Ctx) (a : NodeArgs) (hash : UInt64) (alpha beta : Eval)
-    (hk : hash.toNat = k0) (hb : MaterialBounded a.s)
+    (hk : hash.toNat = k0)
     (hα : 10000 ≤ alpha → ∃ e, x0 = some e ∧ 10000 ≤ e.eval)
     (child : NodeArgs → M Eval)
     (hchild : ∀ args : NodeArgs, 0 < args.curDepth → Holds (Frame L nT nB k0 x0) (child args) (fun _ => True)) :
@@ -311,7 +311,7 @@ theorem tail_root {x0 : Option TT.Entry} (ctx : Ctx) (a : NodeArgs) (hash : UInt
         cases he : evaluate a.s a.s.turn a.curDepth with
         | some e =>
           refine Triple.pure fun st _ h => ?_
-          have := static_lt hb he
+          have := static_lt he
           exfalso; eomega
         | none => exact triple_throw_bind
       have hfin : Triple (fun st' => Frame L nT nB k0 x0 st' ∧ (best = Option.none → alpha' = alpha))
@@ -341,7 +341,7 @@ theorem tail_root {x0 : Option TT.Entry} (ctx : Ctx) (a : NodeArgs) (hash : UInt
       · exact hstatic
       · exact hfin
 
-theorem probe_root (ctx : Ctx) (a : NodeArgs) (hash : UInt64) (hk : hash.toNat = k0) (hb : MaterialBounded a.s)
+theorem probe_root (ctx : Ctx) (a : NodeArgs) (hash : UInt64) (hk : hash.toNat = k0)
     (hα : a.alpha < 10000) (child : NodeArgs → M Eval)
     (hchild : ∀ (x0 : Option TT.Entry) (args : NodeArgs), 0 < args.curDepth →
       Holds (Frame L nT nB k0 x0) (child args) (fun _ => True)) :
@@ -352,7 +352,7 @@ theorem probe_root (ctx : Ctx) (a : NodeArgs) (hash : UInt64) (hk : hash.toNat =
   have htail : ∀ alpha beta, (10000 ≤ alpha → ∃ e, st.tt.find k0 = some e ∧ 10000 ≤ e.eval) →
       Triple (fun st' => st' = st ∧ TT.AInv L nT nB st.tt) (tail ctx a hash alpha beta (some child))
         (fun r st' => 10000 ≤ r → RootWinning k0 st') := fun alpha beta h =>
-    (tail_root g ctx a hash alpha beta hk hb h child (hchild _)).conseq
+    (tail_root g ctx a hash alpha beta hk h child (hchild _)).conseq
       (fun st' hp => by rw [hp.1]; exact ⟨hp.2, Or.inr rfl⟩) fun _ _ h => h
   have hret : ∀ e : TT.Entry, st.tt.find hash.toNat = some e →
       Triple (fun st' => st' = st ∧ TT.AInv L nT nB st.tt) (Pure.pure e.eval : M Eval)
@@ -378,7 +378,7 @@ theorem probe_root (ctx : Ctx) (a : NodeArgs) (hash : UInt64) (hk : hash.toNat =
             · exact htail _ _ fun h => ⟨e, hf', by eomega⟩
       · exact htail _ _ fun h => by exfalso; eomega
 
-theorem nodeBody_root (ctx : Ctx) (a : NodeArgs) (hk : (hash ctx.keys a.s).toNat = k0) (hb : MaterialBounded a.s)
+theorem nodeBody_root (ctx : Ctx) (a : NodeArgs) (hk : (hash ctx.keys a.s).toNat = k0)
     (hα : a.alpha < 10000) (child : NodeArgs → M Eval)
     (hchild : ∀ (x0 : Option TT.Entry) (args : NodeArgs), 0 < args.curDepth →
       Holds (Frame L nT nB k0 x0) (child args) (fun _ => True)) :
@@ -394,7 +394,7 @@ theorem nodeBody_root (ctx : Ctx) (a : NodeArgs) (hk : (hash ctx.keys a.s).toNat
         else probe ctx a (hash ctx.keys a.s) (some child)) (fun r st' => 10000 ≤ r → RootWinning k0 st') := by
     split
     · exact Triple.pure fun st _ h => by exfalso; eomega
-    · exact probe_root g ctx a _ hk hb hα child hchild
+    · exact probe_root g ctx a _ hk hα child hchild
   split
   · refine Triple.bind (R := fun _ st => TT.AInv L nT nB st.tt) (Triple.set fun st' hp => hp.2) fun _ => ?_
     split
@@ -410,11 +410,11 @@ position is in the history (as `analyze_iterative` arranges for the root), the w
 afterwards has a value `≥ POS_INF`. -/
 theorem searchNode_root (ctx : Ctx) (rem : Nat) (a : NodeArgs) (hk : (hash ctx.keys a.s).toNat = k0)
     (hk0 : ∀ s, (hash ctx.keys s).toNat = k0 → ctx.history.contains (hash ctx.keys s) = true)
-    (hb : MaterialBounded a.s) (hα : a.alpha < 10000) :
+    (hα : a.alpha < 10000) :
     Triple (fun st => TT.AInv L nT nB st.tt) (searchNode ctx (rem + 1) a)
       (fun r st' => 10000 ≤ r → RootWinning k0 st') := by
   rw [searchNode_succ]
-  exact nodeBody_root g ctx a hk hb hα _ fun x0 args hd => searchNode_frame g ctx hk0 rem args hd
+  exact nodeBody_root g ctx a hk hα _ fun x0 args hd => searchNode_frame g ctx hk0 rem args hd
 
 end root
 
@@ -457,7 +457,7 @@ theorem runWorker_spec (sd : Nat) (best : Option Move) (hbest : BestOK root best
     { tt, rng, nodes := 0, polls } htt
   refine ⟨hs.1, fun e he => ⟨hs.2 e he, fun hh hw => ?_⟩⟩
   subst hK
-  refine searchNode_root g ctx sd (rootArgs root (sd + 1) best) rfl (fun s hs' => ?_) (dom.bounded _ hD)
+  refine searchNode_root g ctx sd (rootArgs root (sd + 1) best) rfl (fun s hs' => ?_)
     (show - Ev.mateInPly 0 < 10000 by decide) { tt, rng, nodes := 0, polls } htt.1 e _ ?_ hw
   · rw [UInt64.toNat_inj.1 hs']; exact hh
   · rw [← he]
